@@ -167,7 +167,11 @@ def mac_bytes(text):
 
 class BtpuWorld(object):
 
-    def __init__(self, mtu):
+    def __init__(self, mtu, late_pop=False):
+        ''' late_pop: the application leaves finished bundles in the receive queue until the end of the scenario
+        (the queue then holds several at a time) instead of popping each when it is announced. '''
+        self.late_pop = late_pop
+        self.unpopped = []
         GLib.reset()
         dbus.bus.BusConnection.reset_all()
         dbus.RECORDER.clear()
@@ -211,12 +215,40 @@ class BtpuWorld(object):
         self.emit('Sig', who=who, n=ev.name, sigt=dbus.parse_signature(ev.sig), tags=list(ev.tags))
         if who == 'R' and ev.name == 'recv_bundle_finished':
             bid = str(ev.args[0])
+            if self.late_pop:
+                self.emit('Announced', bid=bid)
+                self.unpopped.append(bid)
+                self.emit('RxQueue', ids=self._rx_ids())
+                return
             dbus.RECORDER.enabled = False
             try:
                 data = bytes(self.receiver.recv_bundle_pop_data(bid))
             finally:
                 dbus.RECORDER.enabled = True
             self.emit('Queued', bid=bid, len=len(data), dig=dig(data))
+
+    def _rx_ids(self):
+        dbus.RECORDER.enabled = False
+        try:
+            return sorted(str(x) for x in self.receiver.recv_bundle_get_queue())
+        finally:
+            dbus.RECORDER.enabled = True
+
+    def pop_all(self):
+        ''' The application now takes everything that was announced, in the order of the announcements. '''
+        for bid in self.unpopped:
+            dbus.RECORDER.enabled = False
+            try:
+                data = bytes(self.receiver.recv_bundle_pop_data(bid))
+                self.emit('Queued', bid=bid, len=len(data), dig=dig(data))
+                self.emit('Popped', bid=bid)
+            except Exception:
+                # announced, but no longer there
+                self.emit('PopFailed', bid=bid)
+            finally:
+                dbus.RECORDER.enabled = True
+            self.emit('RxQueue', ids=self._rx_ids())
+        self.unpopped = []
 
     def describe(self, payload_octets, frame_size, xprefix=''):
         ''' Piece records for one Ethernet payload, decoded independently. '''
@@ -296,6 +328,7 @@ class BtpuWorld(object):
                 self.emit('Escape', exc=type(exc).__name__)
 
     def finish(self, once):
+        self.pop_all()
         self.log[0]['s']['once'] = bool(once)
         dbus.RECORDER.sink = None
         self.emit('Final')
